@@ -11,7 +11,7 @@ U(base, scale, ref, offset, nonmult, delta, deltaOf) ==
      log |-> FALSE, lb |-> One, lf |-> One]
 LogU(scale, ref, lb, lf) == [base |-> FALSE, scale |-> scale, ref |-> ref, offset |-> Zero, nonmult |-> TRUE, delta |-> FALSE, deltaOf |-> "",
                              log |-> TRUE, lb |-> lb, lf |-> lf]
-Reg == [units |-> [x \in {"K", "R", "C", "Fh", "delta_C", "delta_Fh", "m", "W", "dBm", "dB", "oct"} |->
+Reg == [units |-> [x \in {"K", "R", "C", "Fh", "delta_C", "delta_Fh", "m", "W", "dBm", "dBW", "dB", "oct"} |->
           CASE x = "K"  -> U(TRUE, One, Th, Zero, FALSE, FALSE, "")
             [] x = "m"  -> U(TRUE, One, L, Zero, FALSE, FALSE, "")
             [] x = "W"  -> U(TRUE, One, P, Zero, FALSE, FALSE, "")
@@ -21,6 +21,7 @@ Reg == [units |-> [x \in {"K", "R", "C", "Fh", "delta_C", "delta_Fh", "m", "W", 
             [] x = "delta_C"  -> U(FALSE, One, Single("K", One), Zero, FALSE, TRUE, "C")
             [] x = "delta_Fh" -> U(FALSE, <<5, 9>>, Single("K", One), Zero, FALSE, TRUE, "Fh")
             [] x = "dBm" -> LogU(<<1, 1000>>, Single("W", One), R(10), R(10))
+            [] x = "dBW" -> LogU(One, Single("W", One), R(10), R(10))
             [] x = "dB"  -> LogU(One, Empty, R(10), R(10))
             [] x = "oct" -> LogU(One, Empty, R(2), One)],
         ddims |-> <<>>]
@@ -29,7 +30,10 @@ TempPool == { Q(R(10), S("K")), Q(R(18), S("R")), Q(R(10), S("delta_C")), Q(R(18
               Q(R(50), S("Fh")), Q(Zero, S("C")), Q(R(2), S("m")), Q(R(3), Single("C", R(2))), Q(R(3), Mul(S("C"), S("m"))),
               Q(R(4), Mul(S("delta_C"), S("m"))) }
 LogPool == { Q(R(20), S("dBm")), Q(Zero, S("dBm")), Q(R(-10), S("dBm")), Q(<<1, 10>>, S("W")), Q(<<1, 1000>>, S("W")),
-             Q(R(30), S("dB")), Q(Zero, S("dB")), Q(R(3), S("oct")), Q(Zero, S("oct")), Q(R(8), Empty), Q(R(1000), Empty), Q(One, Empty) }
+             Q(R(30), S("dB")), Q(Zero, S("dB")), Q(R(3), S("oct")), Q(Zero, S("oct")), Q(R(8), Empty), Q(R(1000), Empty), Q(One, Empty),
+             \* compounds with one logarithmic unit (they convert only in autoconvert mode, and only over a dimensional reference)
+             Q(R(20), Div(S("dBm"), S("m"))), Q(<<1, 10>>, Div(S("W"), S("m"))), Q(R(-10), Div(S("dBW"), S("m"))), Q(R(30), Div(S("dB"), S("m"))),
+             Q(R(-10), S("dBW")), Q(R(1000), Div(Empty, S("m"))) }
 BinOps == {"to", "add", "sub", "mul", "div", "lt", "gt", "eq"}
 UnOps == {"muln", "divn", "rdivn", "pow0", "pow1", "pow2", "neg", "eq0", "gt0", "bool"}
 Two == Num(R(2))
